@@ -8,8 +8,9 @@
              which types are never treated as replies (reader-initiated ones, since the C03 fix)
      st      the awaiting map (ids with a caller blocked in send) and the receivedClosed flag
      env j   for the j-th header read: ids registered by the write loop since the previous
-             lookup, and what the handler (if one is called) does: HRead k / HPanic k = read
-             k bytes of the offered payload (fewer if fewer exist), then return / panic
+             lookup, what the handler (if one is called) does: HRead k / HPanic k v = read
+             k bytes of the offered payload (fewer if fewer exist), then return / panic with a
+             value of kind v; and whether this client has sent CloseConnection
    Its result is the list of dispatch records (header fields, what the awaiting caller got,
    what which handler was offered and consumed, whether the payload was discarded), how the
    loop ended, and the bytes left unread.  [frame_bytes f] is what a peer writes for frame f
@@ -108,9 +109,9 @@ Print Assumptions C04_header_roundtrip.
 Example C04_example :
   let cfg := mkConfig (fun t => t =? 62) true (fun t => (t =? 62) || (t =? 61) || (t =? 63)) in
   let env := fun j => match j with
-                      | O => mkEnv [7] (HRead 2)
-                      | S O => mkEnv [] (HPanic 1 PvRuntimeError)
-                      | _ => mkEnv [] (HRead 100) end in
+                      | O => mkEnv [7] (HRead 2) false
+                      | S O => mkEnv [] (HPanic 1 PvRuntimeError) false
+                      | _ => mkEnv [] (HRead 100) false end in
   let fs := [mkFrame 0 1 12 7 [1;2;3;4;5]; mkFrame 5 2 62 9 [6;7;8]; mkFrame 0 1 63 7 [9]] in
   serve 4 cfg st0 env (concat (map frame_bytes fs) ++ [4; 63; 0])
   = mkResult
